@@ -26,6 +26,9 @@ type factsOut struct {
 	Sites        []siteOut           `json:"sites"` // F3: panic-capable expressions (sites.go)
 	SitesErr     string              `json:"sites_error,omitempty"`
 	ExecCalls    []execCall          `json:"exec_calls"`     // every call of a registered executor, with the guaranteed len of the command passed
+	ReplySites   []replySite         `json:"reply_sites"`    // F6: line-reply constructor calls with a non-constant payload
+	NilSites     []nilSite           `json:"nil_sites"`      // F3 (second part): non-`,ok` assertions and dereferences of possibly-nil lookup results
+	ReplyLiteral int                 `json:"reply_literal"`  // … and how many have a compile-time constant payload
 	ExecEntryMin int                 `json:"exec_entry_min"` // what the analysis of an executor assumes about len(cmd) on entry
 }
 
@@ -173,10 +176,15 @@ func runFacts(args []string) {
 		})
 	}
 	// F3: index / slice / assertion / make / division sites with the guaranteed minimum length at each (sites.go)
-	if sites, calls, err := extractSites(repo); err != nil {
+	if sites, x, err := extractSites(repo); err != nil {
 		out.SitesErr = err.Error()
 	} else {
-		out.Sites, out.ExecCalls, out.ExecEntryMin = sites, calls, execEntryMin
+		out.Sites, out.ExecCalls, out.ExecEntryMin = sites, x.calls, execEntryMin
+		out.ReplySites, out.ReplyLiteral = x.replies, x.literal
+		out.NilSites = x.nils
+		if out.ReplySites == nil {
+			out.ReplySites = []replySite{}
+		}
 	}
 	enc := json.NewEncoder(os.Stdout)
 	enc.SetIndent("", " ")
